@@ -18,10 +18,12 @@
  * model (documented signed interpretation): S = (int64)stored.  If S + amount
  * overflows int64: return 0, every byte unchanged.  Otherwise R =
  * (uint64)(S + amount), need = minimal width of R in the family.  No-grow with
- * need > slot: return need, every byte unchanged.  Otherwise: return need, the
- * value decoded from the slot with the returned width is R, and no byte beyond
- * max(slot, need) changed (no-grow: beyond the slot).  Grow never exceeds 9
- * (tagged) / 8 (external) bytes.
+ * need > slot: return need, every byte unchanged.  Otherwise: the returned
+ * width w is need (tagged: one encoding per value) or need <= w <= slot /
+ * family maximum (external no-grow / grow: a wider fixed-width form is a legal
+ * external varint), the value decoded from the slot with the returned width is
+ * R, and no byte beyond max(slot, w) changed (no-grow: beyond the slot).  Grow
+ * never exceeds 9 (tagged) / 8 (external) bytes.
  *
  * buffers: tagged 9 bytes (the documented minimum for the tagged writer),
  * external no-grow exactly the slot, external grow 8 bytes; all from
@@ -178,11 +180,23 @@ static int run_one(vf_report *rep, const add_case *ac) {
                 fam_maxw(ext));
         return -1;
     }
-    if (ret != need) {
+    /* "returns the width of what is now stored".  A tagged varint has one
+     * encoding per value (C04/C05), so that width is the width of the sum.
+     * An external varint may legally be kept wider than its value needs (the
+     * fixed-width forms of C01), so the add may answer with any width from
+     * the sum's own up to what it was allowed to use - the slot (no-grow; a
+     * sum that needs more was handled above) or the family maximum (grow) -
+     * provided the slot read with THAT width holds the sum, which is checked
+     * next. */
+    if (ext ? (ret < need || ret > (ac->grow ? fam_maxw(ext) : slot))
+            : ret != need) {
         vf_fail(rep, site, "width",
                 WITNESS "the sum is %llu whose width is %u", WARGS,
                 (unsigned long long)R, need);
         return -1;
+    }
+    if (ext) {
+        vf_class(ret == need ? "external.ret.minimal" : "external.ret.wider");
     }
     {
         uint64_t got = ~R;
@@ -204,13 +218,13 @@ static int run_one(vf_report *rep, const add_case *ac) {
         }
     }
     {
-        unsigned keep = slot > need ? slot : need;
+        unsigned keep = slot > ret ? slot : ret;
         for (unsigned i = keep; i < cap; i++) {
             if (post[i] != pre[i]) {
                 vf_fail(rep, site, "untouched",
                         WITNESS "byte %u changed although the varint occupies "
                                 "%u bytes now and %u before",
-                        WARGS, i, need, slot);
+                        WARGS, i, ret, slot);
                 return -1;
             }
         }
